@@ -7,11 +7,18 @@ sys.path.insert(0, ROOT)
 import json
 known = json.load(open(os.path.join(ROOT, "known_findings.json")))["findings"]
 by_commit = {}
+upto = {}
 for k in known:
     if k.get("status") == "fixed":
         by_commit.setdefault(k["commit"], set()).update(k.get("detected_by", [k["property"]]))
+        if k.get("revert_from"):
+            upto[k["commit"]] = k["revert_from"]  # a later follow-up commit touched the same lines: revert both together
 for c, props in sorted(by_commit.items()):
-    diff = subprocess.run(["git", "-C", "/repo", "diff", c, c + "~1"], capture_output=True, text=True).stdout
+    diff = subprocess.run(["git", "-C", "/repo", "diff", upto.get(c, c), c + "~1"], capture_output=True, text=True).stdout
+    if c in upto:
+        # restrict to the files of the fix itself
+        files = subprocess.run(["git", "-C", "/repo", "diff", "--name-only", c + "~1", c], capture_output=True, text=True).stdout.split()
+        diff = subprocess.run(["git", "-C", "/repo", "diff", upto[c], c + "~1", "--"] + files, capture_output=True, text=True).stdout
     out = os.path.join(ROOT, "selftest", "mutants", f"revert_{c}.patch")
     with open(out, "w") as f:
         f.write(f"# properties: {' '.join(sorted(props))}\n# reverse of /repo commit {c}\n" + diff)
